@@ -15,6 +15,13 @@ CHECKS = {
         technique="deterministic simulation: seeded virtual-time worker pools + fault injection, reference = builtin map/starmap",
         design="4/C65",
     ),
+    "C31": dict(
+        category="exploration",
+        text="Seeded search over worker schedules and draw interleavings: the same device seed, call history and configuration (backend x max_workers x entry point) is executed on fresh default.qubit devices under several schedule seeds on simulator-owned pools; thread-pool tasks are real threads descheduled by the simulator at every random draw, so a generator shared between tasks is consumed in a schedule-dependent order if and only if the code shares one. Finite-shot results must be bit-identical across schedules, analytic and derivative results must equal serial execution position by position, and basis-state circuits pin batch order under shots exactly.",
+        note="Trusted: SimPool model of the stdlib pools; numpy's default_rng replaced by a factory of Generator subclasses with the identical PCG64 stream. numpy seeds only (no JAX PRNGKey). Parallel-vs-serial equality of shot results is not demanded (the property does not promise it).",
+        technique="deterministic simulation: seeded virtual-time worker pools, baton-passed real threads pre-empted at RNG draws, differential replay across schedule seeds",
+        design="4/C31",
+    ),
 }
 
 NA = {}
